@@ -137,6 +137,7 @@ var failedStarts = [][]Op{
 var collideCases = []string{
 	"service-kind-instance-vs-builtin", "service-kind-instance-twice", "builtin-vs-service-kind-instance",
 	"exc2-vs-builtin", "builtin-vs-exc2", "exc2-twice", "operator-removes-exc2",
+	"same-service-listener-from-two-connections",
 }
 
 func perms(n int) [][]int {
